@@ -108,7 +108,10 @@ Inductive bc : Type :=
 | BUtf8               (* Error/Warning data: u16 length ++ bytes that must be UTF-8 *)
 | BOnion              (* OnionPacket: version(1) key(33) hop_data(1300) hmac(32); an invalid key is kept as an
                          error and re-encoded as 33 zero bytes *)
-| BBig.               (* BigSize *)
+| BBig                (* BigSize *)
+| BOmPacket.          (* msgs.rs OnionMessage tail: u16 length, then onion_message::packet::Packet inside a
+                         FixedLengthReader of that length: version(1) key(33, validated) hop_data(length-66) hmac(32);
+                         the value is the packet's bytes *)
 
 Inductive bv : Type := VZ (z : Z) | VB (b : bytes).
 
@@ -134,6 +137,7 @@ Definition benc (c : bc) (v : bv) : bytes :=
   | BUtf8, VB b => be_enc 2 (len b) ++ b
   | BOnion, VB b => b
   | BBig, VZ z => bigsize_enc z
+  | BOmPacket, VB b => be_enc 2 (len b) ++ b
   | _, _ => []
   end.
 
@@ -151,6 +155,16 @@ Definition bdec (c : bc) (b : bytes) : rres (bv * bytes) :=
              if is_utf8 x then ROk (VB x, r') else RErr "InvalidValue"
   | BOnion => dop (x, r) <- read_n 1366 b; ROk (VB (onion_norm x), r)
   | BBig => dop (z, r) <- bigsize_dec b; ROk (VZ z, r)
+  | BOmPacket =>
+    dop (n, r) <- read_u 2 b;
+    let w := ztake n r in                       (* FixedLengthReader::new(r, len); the stream may be shorter *)
+    dop (hdr, w1) <- read_n 34 w;               (* version, then the key: ShortRead if either is cut *)
+    if pk_valid (zdrop 1 hdr) then
+      (* hop_data_len = remaining_bytes().saturating_sub(66), read in chunks, then the 32-byte hmac:
+         every failure from here on is a ShortRead *)
+      dop (body, _) <- read_n (Z.max 0 (n - 66) + 32) w1;
+      ROk (VB (hdr ++ body), zdrop n r)
+    else RErr "InvalidValue"
   end.
 
 (** Domain of a base codec: the values the encoder represents faithfully. *)
@@ -168,6 +182,7 @@ Definition bdom (c : bc) (v : bv) : bool :=
   | BOnion, VB b => (len b =? 1366) && (if pk_valid (ztake 33 (zdrop 1 b)) then true
                                          else forallb (Z.eqb 0) (ztake 33 (zdrop 1 b)))
   | BBig, VZ z => (0 <=? z) && (z <? 2 ^ 64)
+  | BOmPacket, VB b => (66 <=? len b) && (len b <? 65536) && pk_valid (zdrop 1 (ztake 34 b))
   | _, _ => false
   end.
 
